@@ -46,6 +46,7 @@ type lfCfg struct {
 	sites []lfSite
 	text  string
 	hasOn bool
+	extra int // port of the additional busy.test site of a port-in-use configuration
 }
 
 type lfRig struct {
@@ -53,6 +54,7 @@ type lfRig struct {
 	st            *sim.Stream
 	tmp           string
 	busyPort      int
+	busy          net.Listener
 	seq           int
 	inst          *casket.Instance
 	running       *lfCfg
@@ -63,6 +65,7 @@ type lfRig struct {
 	failRestartCb bool
 	aborted       bool
 	lastFails     []string
+	lastFailed    *lfCfg            // the configuration of the most recent attempt, if that attempt failed
 	failedTexts   map[string]string // configuration text -> error of an earlier attempt with it
 }
 
@@ -154,13 +157,14 @@ func (r *lfRig) genCfg(fail string) *lfCfg {
 		// a second listen address whose port is held by somebody else: the first
 		// listener is already open (or inherited) when the failure happens
 		fmt.Fprintf(&b, "http://busy.test:%d {\n\tbind 127.0.0.1\n}\n", r.busyPort)
+		cfg.extra = r.busyPort
 	}
 	cfg.text = b.String()
 	return cfg
 }
 
 func (r *lfRig) failLines(cfg *lfCfg, fail, root string) string {
-	none := filepath.Join(r.tmp, "does-not-exist")
+	none := filepath.Join(r.tmp, "does-not-exist-"+cfg.label)
 	switch fail {
 	case "syntax":
 		return "\theader / \"X-Unterminated y\n"
@@ -315,7 +319,7 @@ func (r *lfRig) battery(cfg *lfCfg, when, oracle string) {
 	for _, s := range cfg.sites {
 		var addr net.Addr
 		for _, sl := range srvs {
-			if a := sl.Addr(); a != nil && strings.HasPrefix(a.String(), s.bind+":") {
+			if a := sl.Addr(); a != nil && strings.HasPrefix(a.String(), s.bind+":") && !(cfg.extra != 0 && strings.HasSuffix(a.String(), fmt.Sprintf(":%d", cfg.extra))) {
 				addr = a
 			}
 		}
@@ -377,8 +381,9 @@ func (r *lfRig) timed(what string, f func() error) (err error, hung bool) {
 }
 
 type lfAttempt struct {
-	method string // start | validate | restart | sigusr1
-	cfg    *lfCfg
+	method   string // start | validate | restart | sigusr1
+	cfg      *lfCfg
+	envFixed bool // what made the configuration fail has been repaired in the environment: it must load now
 }
 
 func runLoadfail(c *sim.Ctl) {
@@ -392,12 +397,8 @@ func runLoadfail(c *sim.Ctl) {
 	}
 	r.tmp = tmp
 	defer os.RemoveAll(tmp)
-	busy, err := net.Listen("tcp", "127.0.0.1:0")
-	if err != nil {
-		panic(err)
-	}
-	defer busy.Close()
-	r.busyPort = busy.Addr().(*net.TCPAddr).Port
+	r.occupyPort()
+	defer func() { r.busy.Close() }()
 	st := r.st
 	w := &World{C: c, LogW: r.logw}
 	cur = w
@@ -491,6 +492,18 @@ func runLoadfail(c *sim.Ctl) {
 			r.attempt(a)
 			desc = append(desc, "again")
 		}
+		if fail != "" && !r.aborted && r.lastFailed == a.cfg && (directed || st.Draw(2) == 0) && r.repair(a.cfg) {
+			// the cause lay in the environment and is gone: the very same configuration must load
+			// now, as it would in a fresh process
+			c.Step++
+			c.Probe("same-configuration-after-the-environment-was-repaired")
+			a.envFixed = true
+			r.attempt(a)
+			desc = append(desc, "repaired")
+			if a.cfg.fail == "port-in-use" {
+				r.occupyPort()
+			}
+		}
 	}
 	// ---- finally a valid configuration must load and behave as specified ----
 	if !r.aborted {
@@ -528,6 +541,35 @@ func runLoadfail(c *sim.Ctl) {
 		}
 	}
 	log.SetOutput(os.Stderr)
+}
+
+// occupyPort makes the rig hold a listening port of its own (what "port in use" configurations collide with).
+func (r *lfRig) occupyPort() {
+	busy, err := net.Listen("tcp", "127.0.0.1:0")
+	if err != nil {
+		panic(err)
+	}
+	r.busy = busy
+	r.busyPort = busy.Addr().(*net.TCPAddr).Port
+}
+
+// repair removes the environmental cause of a failed attempt, if its kind has one.
+func (r *lfRig) repair(cfg *lfCfg) bool {
+	root := filepath.Join(r.tmp, cfg.label, fmt.Sprintf("site%d", len(cfg.sites)-1))
+	none := filepath.Join(r.tmp, "does-not-exist-"+cfg.label)
+	switch cfg.fail {
+	case "port-in-use":
+		r.busy.Close() // whoever held the port has gone
+	case "missing:htpasswd":
+		os.WriteFile(filepath.Join(root, "does-not-exist.ht"), []byte("bob:"+sha("hunter2")+"\n"), 0644)
+	case "missing:import":
+		os.WriteFile(none+".conf", []byte("header /imported X-Imported yes\n"), 0644)
+	case "startup-callback:log":
+		os.MkdirAll(filepath.Join(none, "sub"), 0755)
+	default:
+		return false
+	}
+	return true
 }
 
 func orOK(s string) string {
@@ -602,7 +644,8 @@ func (r *lfRig) attempt(a lfAttempt) {
 		return
 	}
 	c.Logf("attempt %s %s -> err=%v", a.method, cfg.label, err)
-	expectFail := cfg.fail != ""
+	expectFail := cfg.fail != "" && !a.envFixed
+	r.lastFailed = nil
 	if a.method == "validate" && (cfg.fail == "port-in-use" || strings.HasPrefix(cfg.fail, "startup-callback") || cfg.fail == "restart-callback") {
 		expectFail = false // validation does not listen or run callbacks
 	}
@@ -621,7 +664,11 @@ func (r *lfRig) attempt(a lfAttempt) {
 		r.failedTexts[cfg.text] = err.Error()
 	}
 	if !expectFail && err != nil {
-		c.Violate("C08/valid-load-failed", a.method+"/after:"+r.prevFails(), "%s of valid configuration %s failed: %v", a.method, cfg.label, err)
+		what := "valid configuration"
+		if a.envFixed {
+			what = "configuration (" + cfg.fail + ", cause repaired meanwhile)"
+		}
+		c.Violate("C08/valid-load-failed", a.method+"/after:"+r.prevFails(), "%s of %s %s failed: %v", a.method, what, cfg.label, err)
 	}
 	if err == nil && a.method != "validate" {
 		r.inst, r.running = newInst, cfg
@@ -635,6 +682,9 @@ func (r *lfRig) attempt(a lfAttempt) {
 	}
 	c.Fault("failed-attempt:" + cfg.fail)
 	r.lastFails = append(r.lastFails, cfg.fail)
+	if expectFail {
+		r.lastFailed = cfg
+	}
 	r.residue(a, before, hooksBefore, instsBefore, cfg.fail)
 }
 
@@ -652,6 +702,11 @@ func (r *lfRig) residue(a lfAttempt, before, hooksBefore []string, instsBefore i
 			withOn = "on-directive"
 		}
 		c.Violate("C08/event-hooks-changed", a.method+"/"+withOn, "%s (%s): registered event hooks changed from %d to %d", a.method, kind, len(hooksBefore), len(ha))
+	}
+	if r.inst != nil && r.running != nil {
+		if in := r.inst.Casketfile(); in == nil || string(in.Body()) != r.running.text {
+			c.Violate("C08/running-instance-input-changed", a.method+"/"+kind, "%s (%s): the running instance now reports another Casketfile than the one it was loaded from", a.method, kind)
+		}
 	}
 	if n := len(casket.Instances()); n != instsBefore {
 		c.Violate("C08/instance-list-changed", a.method+"/"+kind, "%s (%s): instance list length %d -> %d", a.method, kind, instsBefore, n)
